@@ -44,11 +44,11 @@ type ReadOpt func(*ReadOptions) error
 // use AfterNanos instead.
 func After(start int64) ReadOpt {
 	return func(ro *ReadOptions) error {
-		if ro.End < start {
-			return fmt.Errorf("end cannot come before start")
-		}
 		ro.Start = start
-		return nil
+		if start < 0 {
+			start = 0
+		}
+		return AfterNanos(uint64(start))(ro)
 	}
 }
 
@@ -58,11 +58,11 @@ func After(start int64) ReadOpt {
 // use BeforeNanos instead.
 func Before(end int64) ReadOpt {
 	return func(ro *ReadOptions) error {
-		if end < ro.Start {
+		if end < 0 {
 			return fmt.Errorf("end cannot come before start")
 		}
 		ro.End = end
-		return nil
+		return BeforeNanos(uint64(end))(ro)
 	}
 }
 
